@@ -1,0 +1,9 @@
+//go:build verif
+
+package svg
+
+// VerifC07MParsePAR exposes parsePreserveAspectRatio to the C07 model correspondence.
+func VerifC07MParsePAR(s string) (x, y string, none, slice bool) {
+	p := parsePreserveAspectRatio(s)
+	return p.xPosition, p.yPosition, p.none, p.slice
+}
